@@ -121,6 +121,13 @@ def run_amorph(ctx, P):
     ctx.equal("column live==batch", col, batch.as_list())
     from hexital.utils.indexing import round_values   # the wrapper stores round_values(result)
     ctx.equal("column==function at each index", batch.as_list(), [round_values(f(cs, index=i, **kw)) for i in range(N)])
+    # the wrapper evaluated at ONE index, given as i and as the equivalent negative index i-N (the functions are stateless,
+    # so each single evaluation must write what the function returns there)
+    for i in range(N):
+        for idx in (i, i - N):
+            one = build_amorph(name, kw, candles=clone(cs))
+            one.calculate_index(idx)
+            ctx.equal(f"wrapper.calculate_index({'i' if idx >= 0 else 'i-N'}) writes f(c,i)", one.candles[i].indicators.get(one.name, "<nothing written>"), round_values(f(cs, index=i, **kw)))
 
 
 META = dict(
